@@ -73,6 +73,16 @@ func (w *worker) runKey(c *keyCase, raw []byte) {
 		spells = append(spells, spell{".k", "." + cps(c.Dot), cps(c.Dot)})
 	}
 	w.distinct(fmt.Sprintf("%d|%v", len(c.Key), c.DotOK))
+	if w.n%2 == 0 {
+		// every other key: the same quoted texts were first seen as STRING LITERALS of a filter (whose escape rule is
+		// a different one).  What a text meant there must not leak into what it means as a member name.
+		for _, quoted := range []string{strings.TrimSuffix(strings.TrimPrefix(cps(c.DQ), "["), "]"), strings.TrimSuffix(strings.TrimPrefix(cps(c.SQ), "["), "]")} {
+			if pr := safeParse("$[?(@.v == "+quoted+" || @.w)]", nil); pr.F != nil {
+				safeCall(pr.F, []interface{}{map[string]interface{}{"v": key}, map[string]interface{}{"w": 1.0}})
+			}
+			w.count("C16:names-after-same-text-as-literal", 1)
+		}
+	}
 	for _, sp := range spells {
 		type ctx struct {
 			name, path string
